@@ -53,7 +53,7 @@ else:
 if os.environ.get("SEED_DEMO_CMD"):
     # custom demonstration: a shell command run in the seed directory with REPO=<worktree>; exit status decides
     def demo_run():
-        rc, out = sh("REPO=%s %s" % (wt, os.environ["SEED_DEMO_CMD"]), sd, 900)
+        rc, out = sh("export REPO=%s; %s" % (wt, os.environ["SEED_DEMO_CMD"]), sd, 900)
         return rc, out[-800:]
     res["demo_cmd"] = os.environ["SEED_DEMO_CMD"]
 rc0, out0 = demo_run()
